@@ -483,3 +483,25 @@ fn u13_3_header_head_gates() {
     }
     assert!(c.position() as usize == o, "bytes consumed = published size of the leading fields");
 }
+
+// version conversion of a bone keeps all content representable in both versions: every version from TBC (260) on stores the
+// bone name CRC, so converting between any two of them - or from any of them to TBC - keeps it, together with the scalar fields
+// @harness unit=U13.3 props=C13 kind=complete timeout=600 target="chunks/bone.rs: M2Bone::convert (every scalar field value, every target version)" oracle=m2_records
+#[kani::proof]
+#[kani::unwind(8)]
+#[kani::stub(alloc::fmt::format, stub_format)]
+fn u13_3_bone_convert_keeps_crc() {
+    let mut b = M2Bone::new(kani::any(), kani::any());
+    b.submesh_id = kani::any();
+    b.flags = crate::chunks::bone::M2BoneFlags::from_bits_retain(kani::any());
+    let crc: u32 = kani::any();
+    b.bone_name_crc = Some(crc);
+    let target = match kani::any::<u8>() % 7 { 0 => M2Version::Vanilla, 1 => M2Version::TBC, 2 => M2Version::WotLK, 3 => M2Version::Cataclysm, 4 => M2Version::MoP, 5 => M2Version::WoD, _ => M2Version::Legion };
+    let c = b.convert(target);
+    assert!(c.bone_id == b.bone_id && c.parent_bone == b.parent_bone && c.submesh_id == b.submesh_id && c.flags.bits() == b.flags.bits(), "scalar fields survive conversion");
+    if target.to_header_version() >= 260 {
+        assert!(c.bone_name_crc == Some(crc), "the bone name CRC survives conversion to every version that stores it (TBC and later)");
+    }
+    core::mem::forget(b);
+    core::mem::forget(c);
+}
